@@ -97,7 +97,7 @@ def run(tier, seed, replay=None):
     c = rep.counters
     for name, minimum in {'synchronised_refreshes_compared': 300, 'nonempty_views_compared': 1000, 'touched_completeness_checks': 250,
                           'scripthashes_that_changed': 500, 'step:add_chain': 10, 'step:mine_parents': 10, 'step:add_genlike': 10,
-                          'step:evict': 10, 'step:add_many': 3, 'step:add_long_chain': 12, 'invariant_evaluations': 10000, 'steps_placed_inside_a_refresh': 10}.items():
+                          'step:evict': 10, 'step:add_many': 3, 'step:add_long_chain': 12, 'chains_longer_than_two_fetch_batches': 6, 'invariant_evaluations': 10000, 'steps_placed_inside_a_refresh': 10}.items():
         rep.floor(name, c[name], minimum)
     return rep.finish(
         rule='sequences of 4-9 daemon mempool/chain steps (arrivals with confirmed/unconfirmed parents, chains of 8-30 unconfirmed txs, '
